@@ -157,7 +157,7 @@ REVERTS: list[tuple[str, str, list[str]]] = [
     ("revert-F22", "fix: start a new compiled read block when a field offset moves backwards", ["C03.R18", "C03.R24"]),
     ("revert-F20", "fix: keep array sizes that name an earlier field", ["C07.R11", "C10.R8"]),
     ("revert-F23", "fix: do not align the stream after a structure without fields", ["C09.R5", "C09.R6", "C03.R19"]),
-    ("revert-F24", "fix: allow bit fields of the same type behind a dynamically sized field", ["C04.R12", "C06.R8"]),
+    ("revert-F24", "fix: aligned layout keeps bit fields of one unit together|fix: allow bit fields of the same type behind a dynamically sized field", ["C04.R12", "C06.R8"]),
     ("revert-F25", "fix: remember the storage type of every compiled bit field unit", ["C06.R1", "C03.R9"]),
     # F28 (values are refused at write()) makes the overflow of F26 unreachable, so F26 is only visible with F28 reverted as well
     ("revert-F26", "fix: reject bit field values that do not fit their field|fix: keep rejecting bit field values that overflow a signed storage unit", ["C06.R5", "C01.R6"]),
